@@ -172,6 +172,14 @@ FIXED_CASES = [
      "dirty": "clean", "dryrun": "false", "envloc": ".", "packed": False},
     {"i": -9, "ncommits": 2, "tags": [{"name": "v3.1.0", "annotated": False, "commit": 0}], "version": "v3.1",
      "dirty": "clean", "dryrun": "false", "envloc": ".", "packed": False},
+    # an annotated major tag stored in packed-refs is moved: its peeled line must not stay behind (after a branch entry: silently attached to it;
+    # after another annotated tag's peeled line: git can no longer read the file)
+    {"i": -11, "ncommits": 2, "tags": [{"name": "v3", "annotated": True, "commit": 0}, {"name": "v3.0.0", "annotated": True, "commit": 0}], "version": "v3.1.0",
+     "dirty": "clean", "dryrun": "false", "envloc": "..", "packed": True},
+    {"i": -12, "ncommits": 2, "tags": [{"name": "v2.9.0", "annotated": True, "commit": 0}, {"name": "v3", "annotated": True, "commit": 0}, {"name": "v3.0.0", "annotated": False, "commit": 0}],
+     "version": "v3.0.1", "dirty": "clean", "dryrun": "false", "envloc": "..", "packed": True},
+    {"i": -13, "ncommits": 2, "tags": [{"name": "v3", "annotated": False, "commit": 0}, {"name": "v3.0.0", "annotated": True, "commit": 0}], "version": "v3.1.0",
+     "dirty": "clean", "dryrun": "false", "envloc": "..", "packed": True},
     {"i": -10, "ncommits": 2, "tags": [{"name": "v3.0.5", "annotated": False, "commit": 0}], "version": "v3.1",
      "dirty": "clean", "dryrun": "true", "envloc": ".", "packed": False},
 ]
@@ -187,6 +195,38 @@ def git(args, cwd, check=True):
     return p.stdout
 
 
+def packed_refs_problems(repo):
+    """structural monitor over .git/packed-refs: a peeled line (^sha) may only follow the entry of an annotated tag and must name the object that tag peels to"""
+    p = os.path.join(repo, ".git", "packed-refs")
+    if not os.path.exists(p):
+        return []
+    problems, prev = [], None
+    for ln in open(p, errors="replace").read().splitlines():
+        if not ln or ln.startswith("#"):
+            continue
+        if ln.startswith("^"):
+            if prev is None:
+                problems.append("peeled line %s does not follow a ref entry" % ln)
+                continue
+            sha, name = prev
+            prev = None
+            typ = git(["cat-file", "-t", sha], repo, check=False).strip()
+            peel = git(["rev-parse", "--verify", "-q", sha + "^{}"], repo, check=False).strip()
+            if typ != "tag" or peel != ln[1:]:
+                problems.append("entry %s (%s %s) carries peeled value %s, the object peels to %s" % (name, typ, sha[:12], ln[1:13], peel[:12]))
+            continue
+        parts = ln.split(" ", 1)
+        prev = (parts[0], parts[1]) if len(parts) == 2 else None
+    return problems
+
+
+def _read(p):
+    try:
+        return open(p, errors="replace").read()[:2000]
+    except OSError:
+        return None
+
+
 def repo_state(repo):
     refs = {}
     for line in git(["for-each-ref", "--format=%(refname)\t%(objectname)\t%(objecttype)\t%(*objectname)"], repo).splitlines():
@@ -198,7 +238,7 @@ def repo_state(repo):
     status = git(["status", "--porcelain=v1", "-uall"], repo)
     wt = core.snapshot(repo)
     wt = {k: v for k, v in wt.items() if not (k == ".git/" or k.startswith(".git/"))}
-    return {"refs": refs, "head": head, "sym": sym, "index": index, "status": status, "worktree": core.tree_hash(wt)}
+    return {"refs": refs, "head": head, "sym": sym, "index": index, "status": status, "worktree": core.tree_hash(wt), "packed_problems": packed_refs_problems(repo)}
 
 
 def build_repo(ctx, case):
@@ -267,11 +307,19 @@ def eval_case(ctx, case):
     r = core.run(args, cwd=repo, env=core.base_env(GITENV), timeout=120)
     if r.timed_out:
         return Verdict.inconclusive("watchdog")
-    after = repo_state(repo)
     m = model(case)
+    tags = ["dryrun=" + case["dryrun"], "dirty=" + case["dirty"], "greater=%s" % m["greater"]] + (["packed-refs"] if case.get("packed") else [])
+    try:
+        after = repo_state(repo)
+    except RuntimeError as e:
+        # git itself read this repository a moment ago; if it cannot any more, the tool damaged it
+        return Verdict.violated("after the run git can no longer read the repository: %s" % str(e)[-300:],
+                                dict(r.brief(), exit=r.exit, packed_refs=_read(os.path.join(repo, ".git", "packed-refs")), kf_key="c20:packed-refs-damaged"), tags)
+    if after["packed_problems"] and not before["packed_problems"]:
+        return Verdict.violated("the run left .git/packed-refs inconsistent: %s" % after["packed_problems"][:2],
+                                dict(r.brief(), exit=r.exit, packed_refs=_read(os.path.join(repo, ".git", "packed-refs")), kf_key="c20:packed-refs-damaged"), tags)
     obs = {"exit": r.exit, "refs_before": sorted(before["refs"]), "refs_after": sorted(after["refs"]),
            "model": {k: m[k] for k in ("greater", "dry", "clean", "unparseable")}}
-    tags = ["dryrun=" + case["dryrun"], "dirty=" + case["dirty"], "greater=%s" % m["greater"]]
     if r.panicked:
         return Verdict.violated("tagger crashed with a Go panic", dict(obs, **r.brief()), tags)
     changed = core.snap_diff(before["refs"], after["refs"])
